@@ -283,8 +283,17 @@ mut('m43-unpin-inner-clears', ['C13', 'C16'], I, '''        self.guard_count.set
             self.epoch.store(Epoch::starting(), Ordering::Release);''', 'dropping an inner guard clears the pinned bit')
 mut('m44-pin-no-revalidate', ['C14', 'C13'], I, 'if new_epoch.value() == self.global().epoch.load(Ordering::Acquire).value() {', 'if true || new_epoch.value() == self.global().epoch.load(Ordering::Acquire).value() {', 'pin() does not re-validate the epoch it published')
 # ---- C14
-mut('m45-double-advance', ['C14'], I, 'let new_epoch = global_epoch.successor();\n        self.epoch.store(new_epoch, Ordering::Release);', 'let new_epoch = global_epoch.successor().successor();\n        self.epoch.store(new_epoch, Ordering::Release);', 'try_advance advances by two')
-mut('m46-advance-from-fresh-load', ['C14'], I, 'let new_epoch = global_epoch.successor();\n        self.epoch.store(new_epoch, Ordering::Release);', 'let new_epoch = self.epoch.load(Ordering::Relaxed).successor();\n        self.epoch.store(new_epoch, Ordering::Release);', 'try_advance stores the successor of a fresh load (two racing advancers advance twice)')
+mut('m45-double-advance', ['C14'], I, 'let new_epoch = global_epoch.successor();\n        match self.epoch.compare_exchange(', 'let new_epoch = global_epoch.successor().successor();\n        match self.epoch.compare_exchange(', 'the epoch advances by two')
+mut('m46-advance-by-store', ['C14'], I, """        match self.epoch.compare_exchange(
+            global_epoch,
+            new_epoch,
+            Ordering::Release,
+            Ordering::Relaxed,
+        ) {
+            Ok(_) => new_epoch,
+            Err(current) => current,
+        }""", """        self.epoch.store(new_epoch, Ordering::Release);
+        new_epoch""", 're-introduces finding #10: the advancer stores the successor of a stale read')
 # ---- C15
 mut('m47-finalize-no-push', ['C15', 'C20'], I, '''            let guard = &self.pin();
             self.push_to_global(guard);''', '''            let _guard = &self.pin();''', 'a leaving participant does not hand over its bag')
